@@ -1,7 +1,29 @@
 (* Properties_C08.v — C08: updown topranking bins, ranks and limits neighbours exactly as specified. *)
 From Coq Require Import List Arith Lia Bool.
-From GF Require Import TopK Balance.
+From Coq Require Import Floats.SpecFloat.
+From GF Require Import Base Alphabet SymbolsDef SnpsProofs TopK Balance TopRankModel WhichWayProofs PushProofs BinsProofs.
 Import ListNotations.
+
+(* the pairwise classification: whichWay, computed from the two updown-list rows (SNP texts, SNP positions, ambiguity
+   tracts), equals the column-wise definition of the statement for sequences of ANY width over an A/C/G/T reference:
+   n0 = columns where the query has a base differing from the reference that the target (a base) lacks, n2 the converse,
+   n1 shared differences, n3 differences hidden by an ambiguity of the other sequence; bin = same/up/down/side by
+   (n0 = 0, n2 = 0); distance = columns where both are A/C/G/T and differ; pair threshold on n3 / (n0+n1+n2+n3) *)
+Theorem C08_which_way_spec : forall ref q t idq idt thr,
+  all_valid ref -> all_valid q -> all_valid t -> Forall (fun c => resolved c = true) ref ->
+  length q = length ref -> length t = length ref ->
+  which_way (udl_of_seq (map (enc false) ref) idq (map (enc false) q))
+            (udl_of_seq (map (enc false) ref) idt (map (enc false) t)) thr = spec_which_way ref q t thr.
+Proof. exact which_way_spec. Qed.
+Print Assumptions C08_which_way_spec.
+
+(* non-vacuity: a side pair at distance 3 with one shared difference and ambiguity codes in both sequences *)
+Example C08_which_way_example :
+  let ref := bs "ACGTACGTAC" in let q := bs "TCGAACGNAC" in let t := bs "TGGTACCTAN" in
+  spec_which_way ref q t (Float.f64_dyadic 1 0) = Some (3, 3)%nat /\
+  which_way (udl_of_seq (map (enc false) ref) [] (map (enc false) q)) (udl_of_seq (map (enc false) ref) [] (map (enc false) t))
+            (Float.f64_dyadic 1 0) = Some (3, 3)%nat.
+Proof. vm_compute. split; reflexivity. Qed.
 
 (* each bin is kept by the bounded online catchment, which equals the first K of the stable sort by the bin's
    order (any strict weak order: here distance, then fewer ambiguities; file order breaks ties) *)
@@ -34,3 +56,40 @@ Theorem C08_balance_sum : forall total fuel bins res, ssum bins < total ->
   ssum res + asum res = ssum bins + asum bins /\ (asum res = 0 \/ ssum res = total) /\ ssum res <= total.
 Proof. exact balance_sum. Qed.
 Print Assumptions C08_balance_sum.
+
+(* --dist-push k: a bin is, for the k smallest occurring distances in ascending order (sdd = the occurring distances,
+   ascending, each once; keysk k = its first k), the candidates at that distance ordered by fewer ambiguities, then file
+   order; any k >= 1, any candidate list *)
+Theorem C08_push_k_smallest : forall k hs, 0 < k -> push_bin k hs = push_spec k hs.
+Proof. exact push_bin_spec. Qed.
+Print Assumptions C08_push_k_smallest.
+
+Theorem C08_push_membership : forall k hs x, 0 < k ->
+  (In x (push_bin k hs) <-> In x hs /\ In (h_dist x) (keysk k (map h_dist hs))).
+Proof. intros k hs x Hk. rewrite (push_bin_spec k hs Hk). apply push_spec_In. Qed.
+Print Assumptions C08_push_membership.
+
+Theorem C08_occurring_distances : forall l, Sorted.StronglySorted lt (sdd l) /\ (forall x, In x (sdd l) <-> In x l).
+Proof. intros l. split; [apply sdd_asc|intros x; apply sdd_In]. Qed.
+Print Assumptions C08_occurring_distances.
+
+Example C08_push_example :
+  let h (n : nat) (d a : nat) := {| h_name := [N.of_nat n]; h_dist := d; h_amb := a |} in
+  push_bin 2 [h 1 5 0; h 2 3 1; h 3 9 0; h 4 3 0; h 5 1 2; h 6 5 0; h 7 1 0]
+  = [h 7 1 0; h 5 1 2; h 4 3 0; h 2 3 1].
+Proof. vm_compute. reflexivity. Qed.
+
+(* size mode, the whole stage: each of the four reported bins is a prefix of that bin's candidates (direction and
+   --dist limit, file order) stably sorted by distance, then fewer ambiguities *)
+Theorem C08_size_mode_bins_are_prefixes : forall sizes dists nofill n cl, length sizes = 4 ->
+  exists n0 n1 n2 n3,
+    size_mode sizes dists nofill n cl =
+    [firstn n0 (ssort hit hit_lt (candidates dists 0 cl)); firstn n1 (ssort hit hit_lt (candidates dists 1 cl));
+     firstn n2 (ssort hit hit_lt (candidates dists 2 cl)); firstn n3 (ssort hit hit_lt (candidates dists 3 cl))].
+Proof. exact size_mode_bins_are_prefixes. Qed.
+Print Assumptions C08_size_mode_bins_are_prefixes.
+
+Theorem C08_check_args_four_bins : forall st su sd ss sm da du dd ds dp sizes dists,
+  check_args_tr st su sd ss sm da du dd ds dp = Some (sizes, dists) -> length sizes = 4 /\ length dists = 4.
+Proof. exact check_args_sizes_length. Qed.
+Print Assumptions C08_check_args_four_bins.
